@@ -2,8 +2,14 @@
    Model only (no proofs here).  A file system maps path names to nodes; the
    operations are the file-system relevant actions of programs/fileio.c.
 
-   paths : byte strings (list N), one flat name space (no links: two names denote
-           the same file iff they are equal -- UTIL_isSameFile compares st_dev/st_ino).
+   paths : byte strings (list N), one name space keyed by the whole path string
+           (a directory is a node of its own; "d/x" and "d" are different keys).
+   links : a symbolic link is a node Lnk t; t is the path (relative to the working
+           directory) the link denotes.  stat()/open() follow ONE level (look / target):
+           a link whose target is again a link is outside the model (such a name is
+           treated as "neither regular nor directory").  Hard links are not modelled
+           (UTIL_isSameFile compares st_dev/st_ino: here two names denote the same
+           file iff they resolve to the same key).
    data  : list N.  The model is parametric in what an element stands for: the
            correspondence driver uses one element per blob ("token"), the theorems
            hold for any element type content (bytes included). *)
@@ -19,7 +25,8 @@ Record file := mkFile { f_bytes : data; f_closed : bool }.
 Inductive node :=
 | Absent
 | Reg (f : file)
-| Dir.                       (* directory / anything that is not a regular file *)
+| Dir                        (* directory / anything that is neither a regular file nor a link *)
+| Lnk (t : path).            (* symbolic link to t *)
 
 Definition fs := path -> node.
 
@@ -33,7 +40,26 @@ Fixpoint path_eqb (a b : path) : bool :=
 Definition upd (s : fs) (p : path) (n : node) : fs :=
   fun q => if path_eqb q p then n else s q.
 
-(* Operations, tagged with the code site they come from.
+(* stat(p): what p denotes after following one link *)
+Definition look (s : fs) (p : path) : node :=
+  match s p with
+  | Lnk t => s t
+  | n => n
+  end.
+
+(* the key an open(p) / stat(p) lands on *)
+Definition target (s : fs) (p : path) : path :=
+  match s p with
+  | Lnk t => t
+  | _ => p
+  end.
+
+Definition is_lnk (n : node) : bool := match n with Lnk _ => true | _ => false end.
+Definition is_dir (n : node) : bool := match n with Dir => true | _ => false end.
+Definition is_reg (n : node) : bool := match n with Reg _ => true | _ => false end.
+
+(* Operations, tagged with the code site they come from.  Every operation names the KEY it acts on
+   (the protocol model resolves links when it generates the operation).
    OReg / OClr are ghost operations: the SIGINT handler's g_artefact register
    (addHandler / clearHandler in fileio.c); they do not change the file system. *)
 Inductive op :=
@@ -43,7 +69,7 @@ Inductive op :=
 | OSetStat (p : path)                  (* UTIL_setFDStat: fchmod/fchown on the open dst *)
 | OClose (p : path)                    (* AIO_WritePool_closeFile: fclose(dst) *)
 | OUtime (p : path)                    (* UTIL_utime(dst) *)
-| OUnlinkDst (p : path)                (* FIO_removeFile(dst): -f overwrite, or artefact removal *)
+| OUnlinkDst (p : path)                (* remove(dst): -f overwrite, artefact removal, EXM_THROW / SIGINT clean-up *)
 | OCloseSrc (p : path)                 (* fclose(src) *)
 | OUnlinkSrc (p : path)                (* FIO_removeFile(src): --rm *)
 | OStdout (d : data)                   (* write to stdout *)
